@@ -105,6 +105,25 @@ func runC08x(c c08Case) *vstat.Failure {
 	if datum.GetInt(g1) != 1 || datum.GetInt(g2) != 2 {
 		return vstat.Failf(c08Sig(t1, t2), "values read back %d,%d want 1,2 for %q %q", datum.GetInt(g1), datum.GetInt(g2), t1, t2)
 	}
+	// the metric is replaced in a store by a new version of itself (what a
+	// program reload does): the two tuples must still name two data, each with
+	// its own value
+	{
+		s := metrics.NewStore()
+		m.SetSource("p:1:1")
+		if err := s.Add(m); err != nil {
+			return vstat.Failf("store-add-error", "%v", err)
+		}
+		m2 := metrics.NewMetric("m", "p", metrics.Gauge, metrics.Int, c08Keys(len(t1))...)
+		m2.SetSource("p:1:1")
+		if err := s.Add(m2); err != nil {
+			return vstat.Failf("store-add-error", "%v", err)
+		}
+		r1, r2 := m2.FindLabelValueOrNil(t1), m2.FindLabelValueOrNil(t2)
+		if r1 == nil || r2 == nil || r1 == r2 || r1.Value == r2.Value || !tupleEq(r1.Labels, t1) || !tupleEq(r2.Labels, t2) || datum.GetInt(r1.Value) != 1 || datum.GetInt(r2.Value) != 2 || len(m2.LabelValues) != 2 {
+			return vstat.Failf("replacement-merges-tuples", "after the metric was replaced in the store, %q and %q name %v and %v (%d label values)", t1, t2, r1, r2, len(m2.LabelValues))
+		}
+	}
 	if err := m.ExpireDatum(time.Hour, t1...); err != nil {
 		return vstat.Failf("expire-error", "ExpireDatum(%q): %v", t1, err)
 	}
